@@ -649,7 +649,13 @@ class KnownValue(Value):
         elif isinstance(self.val, type):
             return f"type {get_fully_qualified_name(self.val)!r}"
         else:
-            return f"Literal[{self.val!r}]"
+            try:
+                val_repr = repr(self.val)
+            except Exception:
+                # repr() of an arbitrary object can fail; for example, an int
+                # with more digits than sys.get_int_max_str_digits() raises ValueError
+                val_repr = f"<{type(self.val).__name__} object>"
+            return f"Literal[{val_repr}]"
 
     def substitute_typevars(self, typevars: TypeVarMap) -> "KnownValue":
         if not typevars or not callable(self.val):
